@@ -1,5 +1,6 @@
 import FpgoVerif.Proofs.C07Inv
 import FpgoVerif.Proofs.C07Drain
+import FpgoVerif.Proofs.C07ChqInv
 import FpgoVerif.Gen.Skeletons
 import FpgoVerif.Gen.BCQGuards
 /-! Property theorems for C07 — Channel/Buffered queues: bounded, FIFO, exactly-once delivery, nothing stranded.
@@ -264,6 +265,133 @@ theorem C07_chq_poll (ch : Ch) :
   cases hb : ch.buf with
   | nil => cases hc : ch.closed <;> simp
   | cons x r => simp
+
+/-! ### ChannelQueue on its own under concurrent goroutines (`Model/C07Chq.lean`)
+
+    A transition system over a Go channel of capacity `c` (rendezvous for c = 0) with parked senders
+    (Put / PutWithTimeout) and parked receivers (Take / TakeWithTimeout), try-operations (Offer / Poll) and
+    timeouts as nondeterministic steps; any number of threads, any interleaving, every c. -/
+
+/-- **exactly once, FIFO in acceptance order, nothing invented, nothing lost**: delivered ++ buffer = accepted
+    (a value handed over directly is accepted and delivered in the same atom; a parked sender's value is not
+    accepted until its send completes) -/
+theorem C07_chq_conc_fifo (c : Nat) (s : Chq.CS) (h : Chq.Reach c s) :
+    s.delivered ++ s.buf = s.accepted ∧ s.delivered <+: s.accepted :=
+  let i := (Chq.reach_inv h).1
+  ⟨i.fifo, ⟨s.buf, i.fifo⟩⟩
+
+/-- the buffer never exceeds the capacity; senders are parked only while it is full, receivers only while
+    nothing at all is available -/
+theorem C07_chq_conc_bound (c : Nat) (s : Chq.CS) (h : Chq.Reach c s) :
+    s.buf.length ≤ c ∧ (s.sendq ≠ [] → s.buf.length = c) ∧ (0 < s.recvWaiting → s.buf = [] ∧ s.sendq = []) := by
+  obtain ⟨i, hc⟩ := Chq.reach_inv h
+  refine ⟨hc ▸ i.bound, ?_, i.waitEmpty⟩
+  intro hq; have := i.blockedFull hq; have := i.bound; omega
+
+/-- **Offer returns ErrQueueIsFull only when the buffer is full and no receiver is waiting** (so for c = 0: only
+    when there is nobody to rendezvous with), and changes nothing -/
+theorem C07_chq_conc_offer_full (c : Nat) (s s' : Chq.CS) (h : Chq.Reach c s) (v : Nat)
+    (hs : Chq.step s (.offerFull v) = some s') : s.buf.length = c ∧ s.recvWaiting = 0 ∧ s' = s := by
+  obtain ⟨i, hc⟩ := Chq.reach_inv h
+  simp only [Chq.step] at hs
+  split at hs <;> simp at hs
+  rename_i hg
+  have := i.bound
+  exact ⟨by omega, hg.2, hs.symm⟩
+
+/-- **Poll returns ErrQueueIsEmpty only when nothing is buffered and no sender is offering**, and changes nothing -/
+theorem C07_chq_conc_poll_empty (s s' : Chq.CS) (hs : Chq.step s .pollEmpty = some s') :
+    s.buf = [] ∧ s.sendq = [] ∧ s' = s := by
+  simp only [Chq.step] at hs
+  split at hs <;> simp at hs
+  rename_i hg
+  exact ⟨hg.1, hg.2, hs.symm⟩
+
+/-- **the timeout branches move no value**: a PutWithTimeout that times out was never accepted and leaves buffer
+    and histories untouched (its value just leaves the queue of parked senders); likewise TakeWithTimeout -/
+theorem C07_chq_conc_timeouts_move_nothing (s s' : Chq.CS) (v : Nat)
+    (hs : Chq.step s (.putTimeout v) = some s' ∨ Chq.step s .takeTimeout = some s') :
+    s'.buf = s.buf ∧ s'.accepted = s.accepted ∧ s'.delivered = s.delivered := by
+  rcases hs with hs | hs <;> simp only [Chq.step] at hs <;> split at hs <;> simp at hs <;> subst hs <;> exact ⟨rfl, rfl, rfl⟩
+
+/-- no wrapper call is ever without an enabled atom: a blocking send buffers, hands over or parks; Offer buffers,
+    hands over or reports full; a blocking receive takes or parks; Poll takes or reports empty -/
+theorem C07_chq_conc_total (c : Nat) (s : Chq.CS) (h : Chq.Reach c s) (v : Nat) :
+    ((Chq.step s (.sendBuf v)).isSome ∨ (Chq.step s (.sendHandoff v)).isSome ∨ (Chq.step s (.sendBlock v)).isSome) ∧
+    ((Chq.step s (.sendBuf v)).isSome ∨ (Chq.step s (.sendHandoff v)).isSome ∨ (Chq.step s (.offerFull v)).isSome) ∧
+    ((Chq.step s .recvBuf).isSome ∨ (Chq.step s .recvFromSender).isSome ∨ (Chq.step s .recvWait).isSome) ∧
+    ((Chq.step s .recvBuf).isSome ∨ (Chq.step s .recvFromSender).isSome ∨ (Chq.step s .pollEmpty).isSome) := by
+  have hsend : ∀ (P : Prop), ((s.c ≤ s.buf.length ∧ s.recvWaiting = 0) → P) →
+      (Chq.step s (.sendBuf v)).isSome ∨ (Chq.step s (.sendHandoff v)).isSome ∨ P := by
+    intro P hp
+    by_cases hw : 0 < s.recvWaiting
+    · right; left; simp [Chq.step, hw]
+    · by_cases hr : s.buf.length < s.c
+      · left; simp [Chq.step, hr]; omega
+      · right; right; exact hp ⟨by omega, by omega⟩
+  have hrecv : ∀ (P : Prop), ((s.buf = [] ∧ s.sendq = []) → P) →
+      (Chq.step s .recvBuf).isSome ∨ (Chq.step s .recvFromSender).isSome ∨ P := by
+    intro P hp
+    cases hb : s.buf with
+    | cons x r => left; cases hq : s.sendq <;> simp [Chq.step, hb, hq]
+    | nil =>
+      cases hq : s.sendq with
+      | cons w ws => right; left; simp [Chq.step, hb, hq]
+      | nil => right; right; exact hp ⟨hb, hq⟩
+  refine ⟨?_, ?_, ?_, ?_⟩
+  · rcases hsend ((Chq.step s (.sendBlock v)).isSome) (fun hg => by simp [Chq.step, hg]) with h1 | h1 | h1
+    · exact Or.inl h1
+    · exact Or.inr (Or.inl h1)
+    · exact Or.inr (Or.inr h1)
+  · rcases hsend ((Chq.step s (.offerFull v)).isSome) (fun hg => by simp [Chq.step, hg]) with h1 | h1 | h1
+    · exact Or.inl h1
+    · exact Or.inr (Or.inl h1)
+    · exact Or.inr (Or.inr h1)
+  · rcases hrecv ((Chq.step s .recvWait).isSome) (fun hg => by simp [Chq.step, hg]) with h1 | h1 | h1
+    · exact Or.inl h1
+    · exact Or.inr (Or.inl h1)
+    · exact Or.inr (Or.inr h1)
+  · rcases hrecv ((Chq.step s .pollEmpty).isSome) (fun hg => by simp [Chq.step, hg]) with h1 | h1 | h1
+    · exact Or.inl h1
+    · exact Or.inr (Or.inl h1)
+    · exact Or.inr (Or.inr h1)
+
+/-- what the `chqstress` cases expect (`ok accepted=N delivered=N`): in every quiescent reachable state — nothing
+    buffered, nobody parked in a send — everything accepted has been delivered, in acceptance order -/
+theorem C07_chq_conc_quiescent (c : Nat) (s : Chq.CS) (h : Chq.Reach c s) (hb : s.buf = []) :
+    s.delivered = s.accepted := by
+  have := (Chq.reach_inv h).1.fifo
+  simpa [hb] using this
+
+/-- the sequential substrate the driver executes (`chTrySend` / `chTryRecv` on `Ch`, open channel) is this
+    system with nobody parked: a successful try-send is `sendBuf`, a failed one is exactly `offerFull`, a
+    try-receive of a value is `recvBuf`, `empty` is exactly `pollEmpty` -/
+theorem C07_chq_conc_matches_substrate (ch : Ch) (acc del : List Nat) (v : Nat) :
+    (Chq.step ⟨ch.cap, ch.buf, [], 0, acc, del⟩ (.sendBuf v) =
+      if (chTrySend ch v).2 then some ⟨ch.cap, (chTrySend ch v).1.buf, [], 0, acc ++ [v], del⟩ else none) ∧
+    ((chTrySend ch v).2 = false ↔ (Chq.step ⟨ch.cap, ch.buf, [], 0, acc, del⟩ (.offerFull v)).isSome) ∧
+    (∀ ch' x, chTryRecv ch = (ch', .val x) →
+      Chq.step ⟨ch.cap, ch.buf, [], 0, acc, del⟩ .recvBuf = some ⟨ch.cap, ch'.buf, [], 0, acc, del ++ [x]⟩) ∧
+    (ch.buf = [] ↔ (Chq.step ⟨ch.cap, ch.buf, [], 0, acc, del⟩ .pollEmpty).isSome) := by
+  refine ⟨?_, ?_, ?_, ?_⟩
+  · unfold chTrySend; by_cases hr : ch.buf.length < ch.cap <;> simp [Chq.step, hr]
+  · unfold chTrySend; by_cases hr : ch.buf.length < ch.cap <;> simp [Chq.step, hr] <;> omega
+  · intro ch' x hx
+    unfold chTryRecv at hx
+    cases hb : ch.buf with
+    | nil => simp [hb] at hx; split at hx <;> simp at hx
+    | cons a r => simp [hb] at hx; obtain ⟨h1, h2⟩ := hx; subst h1; subst h2; simp [Chq.step]
+  · simp [Chq.step]
+
+/-- non-vacuity: c = 1 — a buffered value, a parked sender completing into the freed slot, a parked receiver
+    served by a hand-over, a timed-out PutWithTimeout that leaves no trace -/
+example : Chq.run (Chq.init 1) [.sendBuf 1, .sendBlock 2, .sendBlock 3, .putTimeout 3, .recvBuf, .recvBuf, .recvWait,
+      .sendHandoff 4] = some ⟨1, [], [], 0, [1, 2, 4], [1, 2, 4]⟩ := by decide
+/-- rendezvous (c = 0) in both orders, and Offer / Poll failing with nobody on the other side -/
+example : Chq.run (Chq.init 0) [.offerFull 9, .pollEmpty, .sendBlock 1, .recvFromSender, .recvWait, .sendHandoff 2,
+      .recvWait, .takeTimeout] = some ⟨0, [], [], 0, [1, 2], [1, 2]⟩ := by decide
+example : ∃ s, Chq.Reach 1 s ∧ s.sendq ≠ [] ∧ s.buf.length = 1 :=
+  ⟨⟨1, [1], [2], 0, [1], []⟩, ⟨[.sendBuf 1, .sendBlock 2], by decide⟩, by decide, rfl⟩
 
 /-! ### non-vacuity: reachable states with a full channel, a non-empty pool, an in-flight value -/
 
